@@ -814,6 +814,18 @@ class WordLockRules(LockModel):
         init = fld.get('init') or {}
         txt = repr(init)
         zero_init = "'v': '0'" in txt or init.get('k') == 'zeroinit' or (init.get('k') == 'initlist' and not init.get('items'))
+        if not zero_init:
+            # no default member initialiser: the default constructor's member initialiser (constants folded)
+            for f in self.fns.values():
+                if f.get('record') == self.rec_name and f['kind'] == 'ctor' and not f['params']:
+                    for p in self.paths(f)['paths']:
+                        for e in p.events:
+                            if e['kind'] == 'init' and e.get('member') == self.word:
+                                v = e['value']
+                                v = v[3][0] if isinstance(v, tuple) and v and v[0] == 'obj' and len(v[3]) == 1 else v
+                                v = v[1][0] if isinstance(v, tuple) and v and v[0] == 'initlist' and len(v[1]) == 1 else v
+                                if is_const(v) and v[1] == 0:
+                                    zero_init = True
         self.sink.emit('C01.CLOSURE', 'ok' if zero_init else 'violated', '%s lock word starts as the all-zero word' % self.cls, '%s:%s' % (self.rec['file'], fld['line']), '')
         assume = {'UPG': None, 'DOWN': None, 'REL:S': None, 'REL:SIX': None, 'REL:X': None}
         trans = {}
